@@ -245,6 +245,7 @@ class FeedTimeout(BaseException):
     """raised by the watchdog inside Irc.feedMsg (BaseException: the firewall of feedMsg lets it through)"""
 
 FEED_LIMIT_S = 5
+HANGS = [0]
 
 def feed_guarded(irc, m):
     """irc.feedMsg(m) under a watchdog: False when it did not return within FEED_LIMIT_S seconds"""
@@ -252,14 +253,17 @@ def feed_guarded(irc, m):
     def boom(sig, frm):
         raise FeedTimeout()
     old = signal.signal(signal.SIGALRM, boom)
-    signal.alarm(FEED_LIMIT_S)
+    # once several feeds have hung (never on a correct tree) the verdict is settled: do not spend the full
+    # limit on each further one
+    signal.setitimer(signal.ITIMER_REAL, FEED_LIMIT_S if HANGS[0] < 3 else 0.5)
     try:
         irc.feedMsg(m)
         return True
     except FeedTimeout:
+        HANGS[0] += 1
         return False
     finally:
-        signal.alarm(0)
+        signal.setitimer(signal.ITIMER_REAL, 0)
         signal.signal(signal.SIGALRM, old)
 
 def parse_line(b, line):
